@@ -1,4 +1,5 @@
 import StunVerif.Props.C14
+import StunVerif.Props.SrcFnTcp
 #print axioms StunVerif.C14.pull_complete
 #print axioms StunVerif.C14.pull_sound
 #print axioms StunVerif.C14.pull_none_iff
@@ -7,3 +8,6 @@ import StunVerif.Props.C14
 #print axioms StunVerif.C14.stream_exact
 #print axioms StunVerif.C14.stream_exact_from
 #print axioms StunVerif.C14.src_framing
+#print axioms StunVerif.SrcFnTcp.src_push
+#print axioms StunVerif.SrcFnTcp.src_take
+#print axioms StunVerif.SrcFnTcp.src_pull
